@@ -2,13 +2,17 @@
 """Regenerates /verif/reach.json: per claimed property, the fault kinds, probes and oracles that fired in EVERY one of the given
 seeds of the quick tier on the unchanged tree. Each later run reports which of these names it did not reach (REACH-GAP, evidence
 coverage.reach): a probe stuck at zero means the workload or fault mix must change.
-usage: tools/gen_reach.py [seeds...]   (default 0 1 2)"""
+usage: [REACH_PROPS="C06 C13"] tools/gen_reach.py [seeds...]   (default 0 1 2)"""
 import json, os, subprocess, sys, tempfile
 
 VERIF = os.path.dirname(os.path.dirname(os.path.abspath(__file__)))
 PROPS = ["C04", "C05", "C06", "C10", "C11", "C13", "C15", "C17", "C19", "C20"]
 seeds = [int(x) for x in sys.argv[1:]] or [0, 1, 2]
 out = {}
+if os.environ.get("REACH_PROPS"):
+    # only these properties are re-measured; the others keep their baseline
+    out = json.load(open(os.path.join(VERIF, "reach.json")))
+    PROPS = os.environ["REACH_PROPS"].split()
 for p in PROPS:
     sets = {"faults": None, "probes": None, "oracles": None}
     for sd in seeds:
